@@ -262,6 +262,7 @@ def rule_type_table(ctx):
     n = _lints.type_table_agree(ctx, R, fis)
     if n < 4:
         ctx.fail(f"TYPE-TABLE: only {n} typed reference filters found in the toolbox")
+    _lints.et_exact(ctx, "ET-EXACT", fis, minimum=10)
 
 
 def variants(repo):
@@ -271,6 +272,8 @@ def variants(repo):
     es = "pandapower/toolbox/element_selection.py"
     V = Variant
     return [
+        Variant("trafo drop removes switches by code prefix", "pandapower/toolbox/grid_modification.py", in_function("drop_trafos", replace_once('(net["switch"]["et"] == et)]', '(net["switch"]["et"].str.startswith(et))]')), "ET-EXACT"),
+        Variant("switch code from the first letter of the table", "pandapower/toolbox/data_modification.py", replace_once('switch_et = {"line": "l", "trafo": "t", "trafo3w": "t3"}[element_type]', "switch_et = element_type[0]"), "ET-EXACT"),
         Variant("trafo3w measurements filtered by the trafo index", "pandapower/toolbox/grid_modification.py", in_function("select_subnet", replace_once("(net.measurement.element.isin(p2.trafo3w.index))", "(net.measurement.element.isin(p2.trafo.index))")), "TYPE-TABLE"),
         V("t3 code lost", dm, replace_once('{"line": "l", "trafo": "t", "trafo3w": "t3"}[element_type]', 'element_type[0]'), "switch.et=t3"),
         V("trafo3w switches skipped", dm, replace_once('    if element_type in ["line", "trafo", "trafo3w"]:\n        switch_et', '    if element_type in ["line", "trafo"]:\n        switch_et'), "switch.et=t3"),
